@@ -2,7 +2,7 @@
 from .. import refcal as R, spec as SP
 from ..batch import run_lines, BatchError
 from ..core import Sub
-from .common import SRC, Viol, days_for, boundary
+from .common import SRC, Viol, days_for, boundary, tail
 
 FLAVOURS = ("san",)
 RULE = ("every day of 1601-01-01..4095-12-31 (quick: complete for the specifier sweep, boundary "
@@ -69,7 +69,7 @@ def specs(ctx, shard, nshards):
                 continue
             for sp, g, r in zip(SPECS, got, rf):
                 if g not in r:
-                    V.add("%s:%s" % (s, sp), {"src": s, "variant": k, "n": n, "spec": sp},
+                    V.add(tail("%s:%s" % (s, sp), n), {"src": s, "variant": k, "n": n, "spec": sp},
                           expected=r[0], actual=g)
         sub.evaluations += len(days) * len(SPECS)
         sub.nontrivial_count += nB * len(SPECS)
@@ -100,7 +100,7 @@ def conv(ctx, shard, nshards):
                 continue
             for n, o, x in zip(days, out, exp):
                 if o != x:
-                    V.add("%s>%s" % (s, t), {"src": s, "variant": k, "n": n, "tgt": t},
+                    V.add(tail("%s>%s" % (s, t), n), {"src": s, "variant": k, "n": n, "tgt": t},
                           expected=x, actual=o)
             sub.evaluations += len(days)
             sub.nontrivial_count += nB
